@@ -6,8 +6,21 @@ from tir import strip, declared
 FIX = "game::shift_jis::fix_char"
 
 
-def affine(e, var):
-    """expression -> (a, b) meaning a*var + b, or None"""
+def const_int(F, path):
+    """value of a local integer constant item built from literals, +, - (None otherwise)"""
+    if F is None:
+        return None
+    b = F.const_body(path)
+    if b is None or not b.get("tir"):
+        return None
+    f = affine(b["tir"]["value"], "\0", F)
+    return f[1] if f is not None and f[0] == 0 else None
+
+
+def affine(e, var, F=None):
+    """expression -> (a, b) meaning a*var + b, or None. Conversions between char and u32 (`c as u32`, `u32::from(c)`,
+    `char::from_u32(x).unwrap()/.unwrap_or(c)`, `char::try_from(x).unwrap()`) are value-preserving on scalar values and
+    are looked through; the scalar-value side condition is checked separately on the resulting table."""
     e = strip(e)
     k = e.get("k")
     if k == "Path" and e.get("res") == "local" and e.get("name") == var:
@@ -15,14 +28,24 @@ def affine(e, var):
     v = tir.lit_int(e)
     if v is not None and k in ("Lit", "Cast", "Unary"):
         return (0, v)
+    if k == "Path" and e.get("res") == "def" and (e.get("dk") or "").startswith("Const"):
+        c = const_int(F, e.get("path"))
+        return None if c is None else (0, c)
+    if k == "Cast" and e.get("ty") in ("u32", "char", "u64", "usize", "i64"):
+        return affine(e["e"], var, F)
+    if k == "Call" and len(e.get("args", [])) == 1 and ((declared(e) or "").endswith("From::from") or (declared(e) or "").endswith("char::methods::<impl char>::from_u32")
+                                                       or (declared(e) or "").endswith("TryFrom::try_from") or (declared(e) or "").endswith("::from_u32")):
+        return affine(e["args"][0], var, F)
+    if k == "MethodCall" and e["method"] in ("unwrap", "expect", "unwrap_or", "unwrap_or_default") and "char" in (e.get("ty") or ""):
+        return affine(e["recv"], var, F)
     if k == "Binary" and e.get("op") in ("Add", "Sub"):
-        l, r = affine(e["l"], var), affine(e["r"], var)
+        l, r = affine(e["l"], var, F), affine(e["r"], var, F)
         if l is None or r is None:
             return None
         s = 1 if e["op"] == "Add" else -1
         return (l[0] + s * r[0], l[1] + s * r[1])
     if k == "Block" and not e.get("stmts") and e.get("tail"):
-        return affine(e["tail"], var)
+        return affine(e["tail"], var, F)
     return None
 
 
@@ -62,10 +85,12 @@ def fix_char_shape(F):
             var = s["pat"]["name"]
         else:
             info["problems"].append("statement outside the fragment: " + tir.pretty(s)[:80])
-    tail = L.strip_try(val.get("tail") or {})
+    tail = L.strip_try(val.get("tail") or {}) if val.get("k") == "Block" else val
     if tail.get("k") == "Match" and mnode is None and L.local_name(tail["scrut"]) == var:
         mnode, mvar = tail, var
         info["out_conv"] = "direct"
+        if var == cname:
+            info["in_conv"] = "direct"      # the match is on the char itself
     elif tail.get("k") == "MethodCall" and tail["method"] in ("unwrap", "expect"):
         c = strip(tail["recv"])
         if c.get("k") == "Call" and (declared(c) or "").endswith("TryFrom::try_from") and L.local_name(c["args"][0]) == var and "char" in (c.get("ty") or ""):
@@ -86,13 +111,13 @@ def fix_char_shape(F):
             elif q.get("k") == "Lit" and q["e"].get("lit") in ("int", "char"):
                 lo = hi = q["e"]["v"]
             elif q.get("k") in ("Wild", "Bind"):
-                f = affine(a["body"], q.get("name") if q.get("k") == "Bind" else mvar)
+                f = affine(a["body"], q.get("name") if q.get("k") == "Bind" else mvar, F)
                 info["default_identity"] = f == (1, 0)
                 continue
             else:
                 info["problems"].append("pattern outside the fragment")
                 continue
-            f = affine(a["body"], mvar)
+            f = affine(a["body"], mvar, F)
             if f is None or f[0] not in (0, 1):
                 info["problems"].append("arm body is not affine in the code point: " + tir.pretty(a["body"])[:60])
                 continue
